@@ -167,6 +167,48 @@ def direct_oracle(desc, obs):
     return None
 
 
+ASYNCGEN_PROBE = r"""
+import gc, sys, warnings
+seen = []
+sys.set_asyncgen_hooks(firstiter=lambda ag: None, finalizer=lambda ag: seen.append(getattr(ag, "__qualname__", repr(ag))))
+warnings.simplefilter("ignore")
+import stackscope                    # first import happens with asyncgen hooks installed (as inside an event loop)
+def g():
+    yield 1
+x = g(); next(x)
+stackscope.extract(x)                # runs add_glue_as_needed -> glue_builtins and friends
+del x
+gc.collect(); gc.collect()
+print("FINALIZED:" + "|".join(seen))
+"""
+
+
+def asyncgen_leg():
+    """stackscope's own helper objects must not reach the host's asyncgen finalizer hook (importing /
+    first use of stackscope inside a running event loop must not schedule work in that loop)"""
+    import os
+    import subprocess
+    import sys
+    env = dict(os.environ)
+    try:
+        p = subprocess.run([sys.executable, "-c", ASYNCGEN_PROBE], stdout=subprocess.PIPE, stderr=subprocess.STDOUT,
+                           text=True, timeout=120, env=env)
+    except subprocess.TimeoutExpired:
+        return [{"what": "asyncgen-hook probe timed out", "input": {"leg": "asyncgen_hooks"}}]
+    line = [l for l in p.stdout.splitlines() if l.startswith("FINALIZED:")]
+    if p.returncode != 0 or not line:
+        return [{"what": "asyncgen-hook probe failed: rc=%s %s" % (p.returncode, p.stdout[-400:]), "input": {"leg": "asyncgen_hooks"}}]
+    got = [x for x in line[0][len("FINALIZED:"):].split("|") if x]
+    if got:
+        return [{"what": "importing/using stackscope handed its own helper async generator(s) %r to the host's asyncgen "
+                         "finalizer hook (the observed program's event loop is perturbed)" % (got,),
+                 "input": {"leg": "asyncgen_hooks", "script": ASYNCGEN_PROBE}}]
+    return []
+
+
 def extra_legs(tier, seed):
     from . import progs
-    return progs.leg_purity(tier, seed)
+    res = progs.leg_purity(tier, seed)
+    res.setdefault("violations", []).extend(asyncgen_leg())
+    res["evaluations"] = res.get("evaluations", 0) + 1
+    return res
